@@ -102,8 +102,9 @@ VARIABLES
                 \*   bracket, tab[<<P, d>>] = <<E(lo) down, E(lo) up, E(hi) down, E(hi) up>>.  Computed
                 \*   once per state: the C14 theorems are statements about this table, Charge reads
                 \*   its result from it, and the harness runs every entry against the real code.
+    base,       \* the charge the battery was last reset to: bat.init, unless reset(c) named another one
     nops, last, hist
-vars == <<bat, lo, hi, eLo, eHi, dLo, dHi, pE, mE, dec, tab, nops, last, hist>>
+vars == <<bat, lo, hi, eLo, eHi, dLo, dHi, pE, mE, dec, tab, base, nops, last, hist>>
 
 Abs(x) == IF x < 0 THEN -x ELSE x
 Min2(a, b) == IF a <= b THEN a ELSE b
@@ -204,7 +205,7 @@ Init ==
     /\ bat \in Bats
     /\ lo = bat.init /\ hi = bat.init
     /\ eLo = 0 /\ eHi = 0 /\ dLo = 0 /\ dHi = 0 /\ pE = 0 /\ mE = 0
-    /\ dec = TRUE /\ nops = 0 /\ last = "init"
+    /\ dec = TRUE /\ nops = 0 /\ last = "init" /\ base = bat.init
     /\ tab = TableAt(bat, bat.init, bat.init)
     /\ hist = IF Rec THEN <<[op |-> "init", lo |-> bat.init, hi |-> bat.init, eLo |-> 0, eHi |-> 0,
                             dLo |-> 0, dHi |-> 0, dec |-> TRUE, tab |-> TabJson(tab)]>>
@@ -234,13 +235,13 @@ Charge(P, d, Z) ==
     /\ hist' = Log([op |-> "charge", p |-> P, d |-> d, z |-> Z, lo |-> lo', hi |-> hi',
                     eLo |-> eLo', eHi |-> eHi', dLo |-> dLo', dHi |-> dHi', dec |-> dec',
                     tab |-> TabJson(tab')])
-    /\ UNCHANGED bat
+    /\ UNCHANGED <<bat, base>>
 
 (* EV.reset(): energy_delivered = 0 and Battery.reset(): charge back to the *)
 (* initial charge, charging power 0.                                        *)
 Reset ==
-    /\ AllowReset /\ nops < MaxOps /\ last = "charge"
-    /\ lo' = bat.init /\ hi' = bat.init
+    /\ AllowReset /\ nops < MaxOps /\ last \in {"charge", "resetto"}
+    /\ lo' = bat.init /\ hi' = bat.init /\ base' = bat.init
     /\ eLo' = 0 /\ eHi' = 0 /\ dLo' = 0 /\ dHi' = 0 /\ pE' = 0 /\ mE' = 0
     /\ dec' = TRUE
     /\ nops' = nops + 1 /\ last' = "reset"
@@ -249,17 +250,40 @@ Reset ==
                     dec |-> TRUE, tab |-> TabJson(tab')])
     /\ UNCHANGED bat
 
+(* Battery.reset(c): the charge is set to c (and the EV's counter is reset   *)
+(* with it); this does NOT redefine the initial charge - a later reset()    *)
+(* goes back to the charge the battery was constructed with.  reset(c) with *)
+(* c above the capacity is refused (ValueError) and changes nothing.        *)
+ResetCharges == {0, CAP \div 4, CAP}
+ResetTo(c) ==
+    /\ AllowReset /\ nops < MaxOps /\ last \in {"init", "charge"}
+    /\ lo' = c /\ hi' = c /\ base' = c
+    /\ eLo' = 0 /\ eHi' = 0 /\ dLo' = 0 /\ dHi' = 0 /\ pE' = 0 /\ mE' = 0
+    /\ dec' = TRUE
+    /\ nops' = nops + 1 /\ last' = "resetto"
+    /\ tab' = TableAt(bat, c, c)
+    /\ hist' = Log([op |-> "resetto", c |-> c, lo |-> c, hi |-> c, eLo |-> 0, eHi |-> 0, dLo |-> 0, dHi |-> 0,
+                    dec |-> TRUE, tab |-> TabJson(tab')])
+    /\ UNCHANGED bat
+ResetRefused ==
+    /\ AllowReset /\ nops < MaxOps /\ last = "charge"
+    /\ nops' = nops + 1 /\ last' = "resetbad"
+    /\ hist' = Log([op |-> "resetbad", c |-> CAP + CAP \div 64, lo |-> lo, hi |-> hi, eLo |-> eLo, eHi |-> eHi,
+                    dLo |-> dLo, dHi |-> dHi, dec |-> dec, tab |-> TabJson(tab)])
+    /\ UNCHANGED <<bat, lo, hi, eLo, eHi, dLo, dHi, pE, mE, dec, tab, base>>
+DoResetTo == \E c \in ResetCharges : ResetTo(c)
+
 Finish ==
     /\ nops = MaxOps /\ last # "emitted"
     /\ IF Rec THEN PrintT(<<"BHV", ToJson([bat |-> bat, cap |-> CAP, k |-> K, ops |-> hist])>>)
        ELSE TRUE
     /\ last' = "emitted"
-    /\ UNCHANGED <<bat, lo, hi, eLo, eHi, dLo, dHi, pE, mE, dec, tab, nops, hist>>
+    /\ UNCHANGED <<bat, lo, hi, eLo, eHi, dLo, dHi, pE, mE, dec, tab, base, nops, hist>>
 
 Terminated == last = "emitted" /\ UNCHANGED vars
 
 DoCharge == \E P \in Pilots, d \in Durs, Z \in (IF bat.noisy THEN Noises ELSE {0}) : Charge(P, d, Z)
-Next == DoCharge \/ Reset \/ Finish \/ Terminated
+Next == DoCharge \/ Reset \/ DoResetTo \/ ResetRefused \/ Finish \/ Terminated
 
 Spec == Init /\ [][Next]_vars
 
@@ -271,7 +295,9 @@ Spec == Init /\ [][Next]_vars
 SampleCharge ==
     Charge(RandomElement(Pilots), RandomElement(Durs), RandomElement(IF bat.noisy THEN Noises ELSE {0}))
 SampleReset == RandomElement(1..4) = 1 /\ Reset
-SampleNext == SampleCharge \/ SampleReset \/ Finish \/ Terminated
+SampleResetTo == RandomElement(1..6) = 1 /\ ResetTo(RandomElement(ResetCharges))
+SampleRefused == RandomElement(1..12) = 1 /\ ResetRefused
+SampleNext == SampleCharge \/ SampleReset \/ SampleResetTo \/ SampleRefused \/ Finish \/ Terminated
 SampleSpec == Init /\ [][SampleNext]_vars
 
 -----------------------------------------------------------------------------
@@ -282,7 +308,7 @@ PowerAtMostMax == eHi <= mE                        \* drawn power <= max_power
 ChargeWithinCapacity == 0 <= lo /\ hi <= CAP /\ (dec => lo <= hi)
 ChargeNeverDecreases == [][last' = "charge" => lo' >= lo /\ hi' >= hi]_vars
 DeliveredIsStored ==                                \* what the EV counts is what the battery stores
-    dec => lo - bat.init <= dHi /\ dLo <= hi - bat.init
+    dec => lo - base <= dHi /\ dLo <= hi - base
 
 (* The physical envelope every battery model has to stay in (it is all the  *)
 (* simulator relies on).  The three laws refine it (LawsRefineEnvelope);     *)
@@ -374,4 +400,8 @@ ExactLawsExact ==       \* the ideal law is exact on the lattice
 ResetRestores ==
     last = "reset" => /\ lo = bat.init /\ hi = bat.init /\ eLo = 0 /\ eHi = 0 /\ dLo = 0 /\ dHi = 0
                       /\ Probing => tab = TableAt(bat, bat.init, bat.init)
+                      /\ base = bat.init
+\* reset(c) sets the charge and nothing else about the battery; a refused reset changes nothing
+ResetToSets == last = "resetto" => lo = base /\ hi = base /\ dLo = 0 /\ dHi = 0
+RefusedResetChangesNothing == [][last' = "resetbad" => UNCHANGED <<bat, lo, hi, eLo, eHi, dLo, dHi, base>>]_vars
 =============================================================================
